@@ -974,7 +974,12 @@ func (e *Exec) evalCall(ctx *evalCtx, x *ECall, want types.Type) Val {
 		if !ok {
 			fail("atomicLoad needs an atomic field")
 		}
-		return e.ctxLoad(ctx, e.atomicLoc(v.T[0], pt.Elem()))
+		lv := e.ctxLoad(ctx, e.atomicLoc(v.T[0], pt.Elem()))
+		// atomic.Pointer[T] holds a *T
+		if n, ok := pt.Elem().(*types.Named); ok && n.Obj().Name() == "Pointer" && n.TypeArgs() != nil && n.TypeArgs().Len() == 1 && len(lv.T) == 1 {
+			lv.Typ = types.NewPointer(n.TypeArgs().At(0))
+		}
+		return lv
 	}
 	// conversions: uint32(x), int(x), int64(x), uint(x), uint64(x)
 	if t := types.Universe.Lookup(x.F); t != nil {
